@@ -291,13 +291,20 @@ impl Property for C12 {
                     if let Some(pre) = &case.pre {
                         run_pre(&case.net, &mut net, pre);
                     }
+                    let mut finite = true;
                     for x in tensors(&case.net, &case.pred).iter().chain(tensors(&case.net, &case.eval.x).iter()) {
-                        let _ = net.predict(x);
+                        if flat(&net.predict(x)).iter().any(|v| !v.is_finite()) {
+                            finite = false;
+                        }
                     }
+                    finite
                 });
                 return match seq {
                     Err(s) => Outcome::Degenerate(format!("sequential predict panics: {}", panic_class(&s))),
-                    Ok(()) => {
+                    // a diverged network (NaN / infinite predictions) has no defined accuracy
+                    // rule; what validate does with it is outside the property
+                    Ok(false) => Outcome::Degenerate("non-finite predictions (diverged network)".into()),
+                    Ok(true) => {
                         let class = panic_class(&e);
                         if class.contains("not supported") || class.contains("not yet implemented") || class.contains("Invalid") {
                             Outcome::Degenerate(format!("aggregate call panics (documented unsupported): {}", class))
@@ -319,6 +326,9 @@ impl Property for C12 {
         if let Some((l, a)) = obs.validate {
             stats.observe(l.to_bits() as u64);
             stats.observe(a.to_bits() as u64);
+        }
+        if obs.ref_eval.iter().flatten().any(|v| !v.is_finite()) {
+            return Outcome::Degenerate("non-finite predictions (diverged network)".into());
         }
         // predict == last activation of forward
         for (i, f) in obs.forward_last.iter().enumerate() {
